@@ -66,12 +66,19 @@ def main() -> int:
         # ---- 1. build model + theorems (full .vo build of exactly what this property needs)
         model_ok = True
         try:
+            if hasattr(plugin, "pre_build"):
+                # regenerate model files that are translated from /repo's current source
+                plugin.pre_build()
             if not args.no_build:
                 common.coq_build(list(plugin.COQ_TARGETS), clean=False)
         except BuildError as e:
             model_ok = False
             broken.append({"what": "coq build of " + ", ".join(plugin.COQ_TARGETS) + " failed",
                            "log": e.log})
+        except Exception:
+            model_ok = False
+            broken.append({"what": "pre_build (translation of /repo sources into the model) failed",
+                           "log": traceback.format_exc()})
         # ---- 2. re-check statements, assumptions, hygiene
         if model_ok:
             try:
